@@ -46,7 +46,7 @@ def leRAd (a b : RAd) : Bool := if a.kind != b.kind then a.kind < b.kind else a.
 
 def advStr (m : Adv) : String :=
   let rs := joinOr "+" ((m.routes.mergeSort leRAd).map (fun r => s!"{r.kind}.{r.key}.{r.metric}"))
-  s!"{m.origin}:{m.seq}:{pathStr m.path}:{pathStr m.seenBy}:{rs}"
+  s!"{m.origin}:{m.seq}:{pathStr m.path}:{pathStr m.seenBy}:{rs}" ++ (if m.wd then ":w" else "")
 
 def queueOf (s : Net) (a b : Node) : List Adv := (s.flight.filter (onLink a b)).map (·.adv)
 
@@ -103,6 +103,9 @@ def parseOp (toks : List String) : POp :=
   | ["announce", a] => match nat? a with
     | some a => .op (.announce a)
     | none => .bad "r=bad"
+  | ["withdraw", a] => match nat? a with
+    | some a => .op (.withdraw a)
+    | none => .bad "r=bad"
   | ["deliver", a, b, i] => match nat? i with
     | some i => n2 a b (fun a b => .op (.deliver a b i)) "r=nolink"
     | none => .bad "r=nolink"
@@ -139,6 +142,8 @@ def exec (s : Net) (op : Op) : Net × String :=
       (s', line ("ord:" ++ joinOr "," (eo.map toString)) [nodeStr s' a, queueStr s' a b])
     else (s', "r=nolink")
   | .announce a =>
+    if a < s.n then (s', line "ok" (nodeStr s' a :: outQueues s' a)) else (s', "r=bad")
+  | .withdraw a =>
     if a < s.n then (s', line "ok" (nodeStr s' a :: outQueues s' a)) else (s', "r=bad")
   | .deliver a b i =>
     if a < s.n ∧ b < s.n ∧ linked s a b then
@@ -246,6 +251,11 @@ def parseAdv (s : String) : Option Adv :=
   | [o, sq, p, sb, rs] =>
     match nat? o, nat? sq, parsePath p, parsePath sb, parseRAds rs with
     | some o, some sq, some p, some sb, some rs => some { origin := o, seq := sq, path := p, seenBy := sb, routes := rs }
+    | _, _, _, _, _ => none
+  | [o, sq, p, sb, rs, "w"] =>
+    match nat? o, nat? sq, parsePath p, parsePath sb, parseRAds rs with
+    | some o, some sq, some p, some sb, some rs =>
+      some { origin := o, seq := sq, path := p, seenBy := sb, routes := rs, wd := true }
     | _, _, _, _, _ => none
   | _ => none
 
@@ -440,7 +450,7 @@ def opChecks (p : Prop5) (o : Obs) (toks : List String) (v : View) : List (Bool 
             -- a copy of an announcement issued by its origin and flooded hop by hop: only the
             -- origin itself starts a seen-by list with its own id (relayed replays start with
             -- the replayer)
-            if !(isGenuine m) then [] else
+            if !(isGenuine m) || m.wd then [] else
             if v.res = "seen" then
               -- legitimately "already seen" only if this agent handled a genuine copy of this key before
               [ (o.marked.contains key, "genuine-announcement-ignored-replay-key-collision") ]
@@ -505,6 +515,12 @@ def Obs.update (o : Obs) (toks : List String) (v : View) : Obs :=
     | _ => o
   -- sequences issued by this op
   let o := match toks with
+    | ["withdraw", a] =>
+      match nat? a with
+      | some a =>
+        let news := (v.queues.map (fun q => q.msgs.getLast?.toList)).flatten
+        { o with genuine := (news.filter (fun m => m.origin == a && m.wd)).map (fun m => (m.origin, m.seq)) ++ o.genuine }
+      | none => o
     | ["announce", a] =>
       match nat? a with
       | some a =>
